@@ -523,10 +523,38 @@ class Executor:
         self.unsupported('raise of %r' % (v,), st)
 
     def st_If(self, st, fr):
+        # `if x is None: x = <attribute or name>` (option fall-back): one path with an
+        # if-then-else value instead of two paths (same semantics: the right-hand side is a
+        # pure read)
+        if not st.orelse and len(st.body) == 1 and isinstance(st.body[0], ast.Assign) \
+                and len(st.body[0].targets) == 1 and isinstance(st.body[0].targets[0], ast.Name) \
+                and isinstance(st.test, ast.Compare) and len(st.test.ops) == 1 \
+                and isinstance(st.test.ops[0], ast.Is) and isinstance(st.test.left, ast.Name) \
+                and st.test.left.id == st.body[0].targets[0].id \
+                and isinstance(st.test.comparators[0], ast.Constant) and st.test.comparators[0].value is None \
+                and self._pure_read(st.body[0].value):
+            cur = deref(self.ev(st.test.left, fr))
+            if isinstance(cur, (ZV, OptV)):
+                c = self.truth(self.ev(st.test, fr))
+                if not isinstance(c, bool):
+                    try:
+                        new = self.ev(st.body[0].value, fr)
+                        from .sym import ite as _ite
+                        merged = _ite(self._z(c), new, cur)
+                        self.assign(st.body[0].targets[0], merged, fr)
+                        return
+                    except OutOfSubset:
+                        pass
         if self.test(self.ev(st.test, fr)):
             self.run_block(st.body, fr)
         else:
             self.run_block(st.orelse, fr)
+
+    @staticmethod
+    def _pure_read(e):
+        while isinstance(e, ast.Attribute):
+            e = e.value
+        return isinstance(e, ast.Name)
 
     def st_FunctionDef(self, st, fr):
         fr.vars[st.name] = Closure(st, fr, fr.module)
